@@ -29,7 +29,7 @@ def scenarios(ctx):
         out.append({"id": "tlc-%d" % i, "cfg": {"n": b["n"], "r": b["r"], "tick_ms": 500, "kind": "counter"}, "steps": b["steps"]})
     # seeded long histories: N up to 60, resolutions 1 s, 1.5 s, 2 s, 7 s, 10 s, 1 min (tick 500 ms)
     for i in range(60 if quick else 600):
-        n = rng.choice([1, 2, 3, 5, 10, 10, 24, 60])
+        n = rng.choice([1, 2, 3, 5, 10, 10, 24, 60, 120])
         r = rng.choice([2, 2, 3, 4, 14, 20, 120])
         steps = []
         for _ in range(150 if quick else 500):
@@ -64,6 +64,24 @@ def scenarios(ctx):
                     steps.append({"op": "adv", "d": g2})
                 out.append({"id": "phase-%d" % k, "cfg": {"n": n, "r": r, "tick_ms": tick, "kind": "counter"}, "steps": steps})
                 k += 1
+    # resolutions that are not a whole number of microseconds (tick = 100 ns): increments a few hundred nanoseconds after and
+    # before a step boundary (origin 2012-03-04T00:00:00Z is 63466416000 s after Go's zero time, which Truncate counts from)
+    tick_ns = 100
+    for ri, res_ns in enumerate([1000000500, 1000000100, 1500000300]):
+        r = res_ns // tick_ns
+        off_ns = (63466416000 * 10 ** 9) % res_ns
+        first = (res_ns - off_ns) // tick_ns          # ticks from the origin to the first step boundary
+        for n in (1, 2, 5):
+            for kb in range(0, 4):                     # the first boundaries (their sub-microsecond part differs)
+                for delta in (-2, -1, 0, 1, 2, 4, 9):
+                    t = first + kb * r + delta
+                    if t <= 0:
+                        continue
+                    steps = [{"op": "adv", "d": t}, {"op": "inc", "v": 3, "which": "a"}, {"op": "count"},
+                             {"op": "adv", "d": 7}, {"op": "inc", "v": 4, "which": "a"}, {"op": "count"},
+                             {"op": "adv", "d": r // 2}, {"op": "count"}]
+                    out.append({"id": "ns-%d-%d-%d-%d" % (ri, n, kb, delta), "cfg": {"n": n, "r": r, "tick_ns": tick_ns, "kind": rng.choice(["counter", "ratio"])},
+                                "steps": steps})
     return out
 
 
